@@ -20,6 +20,7 @@ TRUSTED_BASE = [
     "T3 assumed library contracts (re, int(str), round, timedelta, splitlines, islice, dataclasses, enum, lru_cache/cached_property, logging) - listed per run under assumptions",
     "T4 IEEE-754 binary64 modelled as correctly rounded reals (RN) in the normal range; range obligations generated per operation",
     "T5 sidecar contracts transcribe the property statement (contracts/*.py)",
+    "T6 a function applied through its contract modifies nothing reachable from its arguments or from module state (no modifies clause in the contracts: this is the frame obligation fx/<fn>/modifies-only-objects-it-allocates, discharged for every function of the package under C17, not re-discharged per property)",
 ]
 
 _worker_state = {}
